@@ -187,6 +187,18 @@ def run_job(job, rec):
     # ------------------------------------------------ the sampler
     for c in range(job["n_tables"]):
         gk, pk, x, p = gen_table(rng)
+        x_in, p_in = x, p
+        if rng.random() < 0.15 and x.size >= 3:
+            # an integer-typed table (bin numbers and counts) in the narrow types such data come in; same numbers as floats for the harness
+            dt = [np.uint8, np.int16, np.uint16, np.int32][int(rng.integers(4))]
+            ii = np.iinfo(dt)
+            xi = np.unique(np.rint((x - x[0]) / (x[-1] - x[0]) * min(float(ii.max) * 0.9, 60000.0)))
+            pi_ = np.rint(np.interp(xi, (x - x[0]) / (x[-1] - x[0]) * min(float(ii.max) * 0.9, 60000.0), p) / p.max() * min(float(ii.max) * 0.9, 60000.0))
+            if xi.size >= 2 and pi_.sum() > 0 and not np.all(pi_[:-1] + pi_[1:] == 0):
+                x_in, p_in = xi.astype(dt), pi_.astype(dt)
+                x, p = xi.astype(float), pi_.astype(float)
+                gk, pk = gk + f":{np.dtype(dt).name}", pk + ":counts"
+                rec.count("tables:integer_typed")
         T = PLTable(x, p)
         ctx = {"table": c, "grid": gk, "density": pk, "nodes": int(x.size), "x": x, "p": p}
         rec.context = {k: v for k, v in ctx.items() if k not in ("x", "p")}
@@ -198,19 +210,19 @@ def run_job(job, rec):
             rec.count("tables:descending_cells")
         if c < 2:
             rec.sample({"grid": gk, "density": pk, "x": x[:8], "p": p[:8]})
-        first = guarded(pls, x.copy(), p.copy(), 16)
+        first = guarded(pls, x_in.copy(), p_in.copy(), 16)
         if isinstance(first, Raised):
             rec.violation("raised", f"piecewise_linear_sample raised {first!r}", ctx)
             continue
 
         def pv_ks(n, stage):
-            d = np.asarray(pls(x.copy(), p.copy(), n), float)
+            d = np.asarray(pls(x_in.copy(), p_in.copy(), n), float)
             if d.shape != (n,) or (d < x[0]).any() or (d > x[-1]).any() or not np.isfinite(d).all():
                 return 0.0
             return st.ks_uniform_p(T.cdf(d))
 
         def pv_chi(n, stage):
-            d = np.asarray(pls(x.copy(), p.copy(), n), float)
+            d = np.asarray(pls(x_in.copy(), p_in.copy(), n), float)
             idx = np.clip(np.searchsorted(x, d, side="right") - 1, 0, x.size - 2)
             obs = np.bincount(idx, minlength=x.size - 1).astype(float)
             exp = T.cell_probs() * n
